@@ -21,7 +21,8 @@ func MatchWildcardRegexp(query string, exact bool) *regexp.Regexp {
 	if exact {
 		return regexp.MustCompile(fmt.Sprintf("^%s$", regexpQuery))
 	}
-	return regexp.MustCompile(fmt.Sprintf("^%s", regexpQuery))
+	// a non-exact query matches the path it names and everything beneath it, at a path element boundary
+	return regexp.MustCompile(fmt.Sprintf(`^%s($|/|\[)`, regexpQuery))
 }
 
 // MatchWildcardChNameRegexp creates a Regular Expression from a wild-carded path
